@@ -792,8 +792,10 @@ func (ctx HelperContext) SimplifyUnusedExpr(expr Expr, unsupportedFeatures compa
 						// Since TypeScript doesn't handle this extreme edge case and
 						// TypeScript is very widely used, I think it's fine for us to not
 						// handle this edge case either.
-						if id, ok := test.Data.(*EIdentifier); ok && !id.MustKeepDueToWithStmt && TryToInsertOptionalChain(test, right) {
-							return right
+						if id, ok := test.Data.(*EIdentifier); ok && !id.MustKeepDueToWithStmt {
+							if chain, ok := TryToInsertOptionalChain(test, right); ok {
+								return chain
+							}
 						}
 					}
 				}
@@ -854,8 +856,9 @@ func (ctx HelperContext) SimplifyUnusedExpr(expr Expr, unsupportedFeatures compa
 							return s.Value
 						} else {
 							// Replace "(async () => { foo() })()" with "(async () => foo())()"
+							// Be careful to not modify the original statement list
 							clone := *target
-							clone.Body.Block.Stmts[0].Data = &SReturn{ValueOrNil: s.Value}
+							clone.Body.Block.Stmts = []Stmt{{Loc: target.Body.Block.Stmts[0].Loc, Data: &SReturn{ValueOrNil: s.Value}}}
 							clone.PreferExpr = true
 							return Expr{Loc: expr.Loc, Data: &ECall{Target: Expr{Loc: e.Target.Loc, Data: &clone}}}
 						}
@@ -1658,46 +1661,59 @@ func ValuesLookTheSame(left E, right E) bool {
 	return ok && equal
 }
 
-func TryToInsertOptionalChain(test Expr, expr Expr) bool {
+// This returns a copy of "expr" with the optional chain inserted instead of
+// modifying "expr" in place. The AST may be shared with other builds (it's
+// cached for incremental builds) and with other linker threads, and this can
+// be called at print time, so the original AST must not be mutated.
+func TryToInsertOptionalChain(test Expr, expr Expr) (Expr, bool) {
 	switch e := expr.Data.(type) {
 	case *EDot:
 		if ValuesLookTheSame(test.Data, e.Target.Data) {
-			e.OptionalChain = OptionalChainStart
-			return true
+			clone := *e
+			clone.OptionalChain = OptionalChainStart
+			return Expr{Loc: expr.Loc, Data: &clone}, true
 		}
-		if TryToInsertOptionalChain(test, e.Target) {
-			if e.OptionalChain == OptionalChainNone {
-				e.OptionalChain = OptionalChainContinue
+		if target, ok := TryToInsertOptionalChain(test, e.Target); ok {
+			clone := *e
+			clone.Target = target
+			if clone.OptionalChain == OptionalChainNone {
+				clone.OptionalChain = OptionalChainContinue
 			}
-			return true
+			return Expr{Loc: expr.Loc, Data: &clone}, true
 		}
 
 	case *EIndex:
 		if ValuesLookTheSame(test.Data, e.Target.Data) {
-			e.OptionalChain = OptionalChainStart
-			return true
+			clone := *e
+			clone.OptionalChain = OptionalChainStart
+			return Expr{Loc: expr.Loc, Data: &clone}, true
 		}
-		if TryToInsertOptionalChain(test, e.Target) {
-			if e.OptionalChain == OptionalChainNone {
-				e.OptionalChain = OptionalChainContinue
+		if target, ok := TryToInsertOptionalChain(test, e.Target); ok {
+			clone := *e
+			clone.Target = target
+			if clone.OptionalChain == OptionalChainNone {
+				clone.OptionalChain = OptionalChainContinue
 			}
-			return true
+			return Expr{Loc: expr.Loc, Data: &clone}, true
 		}
 
 	case *ECall:
 		if ValuesLookTheSame(test.Data, e.Target.Data) {
-			e.OptionalChain = OptionalChainStart
-			return true
+			clone := *e
+			clone.OptionalChain = OptionalChainStart
+			return Expr{Loc: expr.Loc, Data: &clone}, true
 		}
-		if TryToInsertOptionalChain(test, e.Target) {
-			if e.OptionalChain == OptionalChainNone {
-				e.OptionalChain = OptionalChainContinue
+		if target, ok := TryToInsertOptionalChain(test, e.Target); ok {
+			clone := *e
+			clone.Target = target
+			if clone.OptionalChain == OptionalChainNone {
+				clone.OptionalChain = OptionalChainContinue
 			}
-			return true
+			return Expr{Loc: expr.Loc, Data: &clone}, true
 		}
 	}
 
-	return false
+	return expr, false
 }
 
 func joinStrings(a []uint16, b []uint16) []uint16 {
@@ -2972,8 +2988,10 @@ func (ctx HelperContext) MangleIfExpr(loc logger.Loc, e *EIf, unsupportedFeature
 
 			// "a != null ? a.b.c[d](e) : undefined" => "a?.b.c[d](e)"
 			if !unsupportedFeatures.Has(compat.OptionalChain) {
-				if _, ok := whenNull.Data.(*EUndefined); ok && TryToInsertOptionalChain(check, whenNonNull) {
-					return whenNonNull
+				if _, ok := whenNull.Data.(*EUndefined); ok {
+					if chain, ok := TryToInsertOptionalChain(check, whenNonNull); ok {
+						return chain
+					}
 				}
 			}
 		}
